@@ -2988,8 +2988,14 @@ impl SctpInner {
                 // deliverable, but DCEP messages arrive before any data
                 // channel exists, so there shouldn't be anything to deliver.
             }
-            if let Some(message) = message {
-                self.handle_dcep(stream_id, message).await?;
+            // The chunk has been received whatever its content turns out to be: a
+            // DCEP message that cannot be acted on is dropped here. Handing the error
+            // up would leave the TSN unacknowledged for ever - the peer retransmits
+            // it, it fails again, and every later chunk of every channel waits behind it.
+            if let Some(message) = message
+                && let Err(e) = self.handle_dcep(stream_id, message).await
+            {
+                debug!("SCTP: dropping DCEP message on stream {}: {}", stream_id, e);
             }
             return Ok(());
         }
